@@ -23,6 +23,8 @@ type zzOp struct {
 	done chan struct{}
 }
 
+var zzStrictCreateVersion = true
+
 type zzSeqState struct {
 	present bool
 	ver     string
@@ -36,7 +38,8 @@ func zzExplain(ops []*zzOp, order []int, st zzSeqState, final zzSeqState) bool {
 		switch o.kind {
 		case 0:
 			if st.present {
-				if !zzIsErr(o.err, errors.ErrExist) || o.ver != st.ver {
+				// (a backend whose Create is not one atomic step may report the version it read a moment later)
+				if !zzIsErr(o.err, errors.ErrExist) || (zzStrictCreateVersion && o.ver != st.ver) {
 					return false
 				}
 			} else {
@@ -57,7 +60,9 @@ func zzExplain(ops []*zzOp, order []int, st zzSeqState, final zzSeqState) bool {
 			}
 			switch {
 			case !st.present:
-				if !zzIsErr(o.err, errors.ErrNotExist) {
+				// the statement allows a loser either documented outcome; a backend whose CAS is an optimistic
+				// transaction reports ErrConflict when the key was deleted under it
+				if !zzIsErr(o.err, errors.ErrNotExist) && !(!zzStrictCreateVersion && zzIsErr(o.err, errors.ErrConflict)) {
 					return false
 				}
 			case st.ver != want:
